@@ -1,6 +1,7 @@
 import Yv.Model.Core
 import Yv.Model.PackX
 import Yv.Cert.Auto
+import Yv.Cert.Complete
 import Yv.Model.Drive
 import Yv.Model.XDrv
 /-! `ymodel`: line-protocol driver. Reads the dump the Go harness wrote for each case (grammar as
@@ -61,32 +62,44 @@ def process (out : IO.FS.Stream) (a : CaseAcc) : IO Unit := do
     out.putStrLn "ENDCASE"
     return
   let g : Gram := { nSyms := a.nSyms, nT := a.nT, prec := a.prec, assoc := a.assoc, rules := a.rules }
-  -- M: mirror
+  -- M: mirror, stage by stage.  Each stage is recomputed by the model FROM THE IMPLEMENTATION'S
+  -- PREVIOUS STAGE, so a difference is local to the stage that introduced it.
   match buildLR0 g with
   | none => out.putStrLn "M TOO-MANY-STATES"
   | some au =>
     for q in [0:au.states.size] do
       out.putStrLn (s!"M STATE {q} " ++ " ".intercalate ((au.states[q]!).map fun (r, d) => s!"{r}.{d}"))
       for (x, p) in au.gotos[q]! do out.putStrLn s!"M GOTO {q} {x} {p}"
-    match lalr g au with
-    | none => out.putStrLn "M LA-UNSTABLE"
-    | some t =>
-      for (q, r, la) in laLines g au t do
-        out.putStrLn (s!"M LA {q} {r} " ++ nats la)
-      let rows := (List.range au.states.size).map fun q => (genRow g au t q).toList
-      for q in [0:au.states.size] do
-        out.putStrLn (s!"M ROW {q} " ++ ints (rows.getD q []))
-      let s := PackX.trySplit rows g.nT
-      let p := PackX.packTable s.tab
-      let need := !(p.act.length + p.off.length + s.actdef.length + s.gtdef.length > rows.length * g.nSyms)
-      if need then
-        out.putStrLn "M PACKED 1"
-        out.putStrLn ("M ACT " ++ ints p.act)
-        out.putStrLn ("M OFF " ++ ints p.off)
-        out.putStrLn ("M CHK " ++ ints p.check)
-        out.putStrLn ("M ADEF " ++ ints s.actdef)
-        out.putStrLn ("M GDEF " ++ ints s.gtdef)
-      else out.putStrLn "M PACKED 0"
+  let iau0 : Auto := { states := a.iStates, gotos := a.iGotos }
+  -- lookaheads: the propagation fixpoint on the implementation's automaton
+  match lalr g iau0 with
+  | none => out.putStrLn "M LA-UNSTABLE"
+  | some t =>
+    for (q, r, la) in laLines g iau0 t do
+      out.putStrLn (s!"M LA {q} {r} " ++ nats la)
+  -- table rows and warnings: from the implementation's automaton and the implementation's lookaheads
+  let ilat : LATab := iau0.states.mapIdx fun q its => its.map fun it =>
+    match a.iLA.toList.find? (fun (x : Nat × Nat × List Nat) => x.1 == q && x.2.1 == it.1 && it.2 == (g.rules[it.1]!).rhs.size) with
+    | some (_, _, la) => (it, la)
+    | none => (it, [])
+  for q in [0:iau0.states.size] do
+    out.putStrLn (s!"M ROW {q} " ++ ints (genRow g iau0 ilat q).toList)
+  for q in [0:iau0.states.size] do
+    for (sy, x, y) in stateWarnings g iau0 ilat q do out.putStrLn s!"M WARN {q} {sy} {x} {y}"
+  -- split + pack: from the implementation's dense table
+  if a.iRows.size > 0 then
+    let irows := a.iRows.toList
+    let s := PackX.trySplit irows g.nT
+    let p := PackX.packTable s.tab
+    let need := !(p.act.length + p.off.length + s.actdef.length + s.gtdef.length > irows.length * g.nSyms)
+    if need then
+      out.putStrLn "M PACKED 1"
+      out.putStrLn ("M ACT " ++ ints p.act)
+      out.putStrLn ("M OFF " ++ ints p.off)
+      out.putStrLn ("M CHK " ++ ints p.check)
+      out.putStrLn ("M ADEF " ++ ints s.actdef)
+      out.putStrLn ("M GDEF " ++ ints s.gtdef)
+    else out.putStrLn "M PACKED 0"
   -- V: certificates on the implementation's artefacts
   let yg := toY g
   let ya := toYAuto a.iStates a.iGotos
@@ -105,6 +118,15 @@ def process (out : IO.FS.Stream) (a : CaseAcc) : IO Unit := do
     match bad with
     | [] => out.putStrLn s!"V laOracle ok {want.length}"
     | (q, r, la) :: _ => out.putStrLn (s!"V laOracle FAIL {q} {r} " ++ nats la)
+    -- warnings predicted from the oracle lookaheads on the implementation's automaton
+    for q in [0:iau.states.size] do
+      for (sy, x, y) in stateWarnings g iau t q do out.putStrLn s!"O WARN {q} {sy} {x} {y}"
+    let mc := maxCands g iau t
+    out.putStrLn s!"V isLALR1 {if mc ≤ 1 then "yes" else "no"} {mc}"
+    if mc ≤ 1 then
+      let yla : Y.LATab := { tab := t.toList.map fun l => l.map fun (it, la) => (⟨it.1, it.2⟩, la) }
+      out.putStrLn s!"V certC {verdict (Y.certC yg ya yla rows)}"
+    -- the oracle's lookaheads for all items (used by C03's replay and by the evidence)
   -- packed lookup through the implementation's arrays
   if a.packed then
     let p : PackX.Packed := { act := a.iAct, off := a.iOff, check := a.iChk }
@@ -147,6 +169,8 @@ structure XAcc where
   stepLimit : Nat := 3000
   inputs : Array (Array Nat) := #[]
   wantTrace : Bool := false
+  isPack : Bool := false          -- PCASE block: a matrix for the packing model
+  prow : Array (List Int) := #[]
 
 def parseTerm (s : String) : Int × Nat :=
   match s.splitOn ":" with
@@ -180,7 +204,20 @@ partial def loop (inp out : IO.FS.Stream) (a : CaseAcc) (x : XAcc := {}) : IO Un
   let line ← inp.getLine
   if line.isEmpty then return ()
   let ws := (line.trimAscii.toString.splitOn " ").filter (· ≠ "")
-  if x.active then
+  if x.isPack then
+    match ws with
+    | "PROW" :: cells => loop inp out a { x with prow := x.prow.push (cells.map String.toInt!) }
+    | "PEND" :: _ => do
+      let tab := x.prow.toList
+      let p := PackX.packTable tab
+      out.putStrLn s!"PCASE {x.id}"
+      out.putStrLn ("M PACT " ++ ints p.act)
+      out.putStrLn ("M POFF " ++ ints p.off)
+      out.putStrLn ("M PCHK " ++ ints p.check)
+      out.putStrLn "PEND"
+      loop inp out a {}
+    | _ => loop inp out a x
+  else if x.active then
     match ws with
     | "XCONST" :: e :: c :: t :: lim :: tr :: _ =>
       loop inp out a { x with errC := e.toInt!, accC := c.toInt!, nT := t.toNat!, stepLimit := lim.toNat!, wantTrace := tr == "1" }
@@ -200,6 +237,7 @@ partial def loop (inp out : IO.FS.Stream) (a : CaseAcc) (x : XAcc := {}) : IO Un
   else
   match ws with
   | "XCASE" :: id :: _ => loop inp out a { id := id, active := true }
+  | "PCASE" :: id :: _ => loop inp out a { id := id, isPack := true }
   | "CASE" :: id :: _ => loop inp out { id := id }
   | "REFUSE" :: cls :: _ => loop inp out { a with refuse := some cls }
   | "GRAMMAR" :: n :: t :: _ =>
